@@ -124,7 +124,7 @@ def gen_cases(tier, seed):
            "targets": ["j"]}
     yield {"objs": [["T", ["i", "j", "b", "c"], 1], ["Z", ["i", "c"], 1]], "tkind": "anti", "pref": [1, 1],
            "targets": ["j", "b"]}
-    for _ in range(60 if tier == "quick" else 900):
+    for _ in range(60 if tier == "quick" else 250):
         names = rng.sample(OCC, 3) + rng.sample(VIRT, 3)
         tkind = rng.choice(["anti", "anti", "non"])
         rank = rng.choice([2, 4]) if tkind == "anti" else rng.choice([1, 2, 3])
